@@ -919,19 +919,50 @@ impl<T: ItemT> TableRunner<T> {
             }
             ("iter_hash", 1) => {
                 let ix = addr_index(m);
-                let v: Vec<usize> = m
-                    .iter_hash(tape::plan_hash(n(0)))
-                    .map(|e| if T::ZST { 0 } else { *ix.get(&(e as *const T as usize)).unwrap_or(&bad) })
-                    .collect();
-                nats(&v)
+                let at = |e: &T| if T::ZST { 0 } else { *ix.get(&(e as *const T as usize)).unwrap_or(&bad) };
+                let v: Vec<usize> = m.iter_hash(tape::plan_hash(n(0))).map(|e| at(e)).collect();
+                // `fold` is overridden (table.rs): it must visit what `next` yields, also after a prefix
+                let mut flag = "";
+                for p in [0usize, 1, v.len()] {
+                    if p > v.len() {
+                        continue;
+                    }
+                    let mut it = m.iter_hash(tape::plan_hash(n(0)));
+                    for _ in 0..p {
+                        it.next();
+                    }
+                    let f = it.fold(Vec::new(), |mut acc, e| {
+                        acc.push(at(e));
+                        acc
+                    });
+                    if f[..] != v[p..] {
+                        flag = " FOLD-MISMATCH";
+                    }
+                }
+                format!("{}{}", nats(&v), flag)
             }
             ("iter_hash_mut", 1) => {
                 let ix = addr_index(m);
-                let v: Vec<usize> = m
-                    .iter_hash_mut(tape::plan_hash(n(0)))
-                    .map(|e| if T::ZST { 0 } else { *ix.get(&(&*e as *const T as usize)).unwrap_or(&bad) })
-                    .collect();
-                nats(&v)
+                let at = |e: &T| if T::ZST { 0 } else { *ix.get(&(e as *const T as usize)).unwrap_or(&bad) };
+                let v: Vec<usize> = m.iter_hash_mut(tape::plan_hash(n(0))).map(|e| at(&*e)).collect();
+                let mut flag = "";
+                for p in [0usize, 1, v.len()] {
+                    if p > v.len() {
+                        continue;
+                    }
+                    let mut it = m.iter_hash_mut(tape::plan_hash(n(0)));
+                    for _ in 0..p {
+                        it.next();
+                    }
+                    let f = it.fold(Vec::new(), |mut acc, e| {
+                        acc.push(at(&*e));
+                        acc
+                    });
+                    if f[..] != v[p..] {
+                        flag = " FOLD-MISMATCH";
+                    }
+                }
+                format!("{}{}", nats(&v), flag)
             }
             ("get_many_mut", cnt) | ("get_many_mut_any", cnt) => {
                 let ks: Vec<u64> = (0..cnt).map(n).collect();
